@@ -136,6 +136,13 @@ func EnterProc(id, proc string) func() {
 	return Enter(&Tok{id: id, proc: proc})
 }
 
+// SetProc tags the calling task (and, through Spawn, its descendants) with a simulated-process name.
+func SetProc(proc string) {
+	if t := current(); t != nil {
+		t.proc = proc
+	}
+}
+
 // CurrentID returns the id of the calling task ("" if not a task).
 func CurrentID() string {
 	if t := current(); t != nil {
